@@ -156,5 +156,21 @@ Parse(toks) ==
     THEN Cfg(toks[1], toks[2], toks[3], ArchParse(SubSeq(toks, 4, Len(toks))))
   ELSE Cfg("?", 0, 0, "?")
 
+\* Platform.markers(): the PEP 508 environment of a target platform (beyond the listed properties;
+\* transcription of the os_name / sys_platform / platform_machine / platform_system properties)
+Markers(c) ==
+  [os_name          |-> IF c.os = "windows" THEN "nt" ELSE "posix",
+   sys_platform     |-> IF c.os = "windows" THEN "win32" ELSE IF c.os = "macos" THEN "darwin" ELSE "linux",
+   platform_machine |-> IF c.os \in {"windows", "macos"} /\ c.arch = "aarch64" THEN "arm64"
+                        ELSE IF c.os = "windows" /\ c.arch = "x86_64" THEN "AMD64" ELSE c.arch,
+   platform_system  |-> IF c.os = "macos" THEN "Darwin" ELSE IF c.os = "windows" THEN "Windows" ELSE "Linux"]
+\* the environment is coherent with the tag family the platform accepts
+MarkersCoherent(c) ==
+  LET m == Markers(c)  t == AlgoTags(c)[1] IN
+  /\ (m.os_name = "nt") = (t.f \in {"win32", "win_amd64", "win_arm64"})
+  /\ (m.sys_platform = "darwin") = (t.f = "macosx")
+  /\ (m.sys_platform = "linux") = (t.f \in {"manylinux", "linux", "musllinux"})
+  /\ (m.platform_system = "Windows") = (m.os_name = "nt")
+
 SeqSet(s) == { s[i] : i \in 1..Len(s) }
 =============================================================================
